@@ -103,6 +103,7 @@ fn real_main() {
             let fam = match a(2) {
                 "two_leaf" => families::Family::TwoLeaf,
                 "cyclic_parents" => families::Family::CyclicParents,
+                "deep_tree" => families::Family::DeepTree,
                 _ => families::Family::Rich,
             };
             let mut pool = docs::Pool::new(&repo, env_seed());
